@@ -302,7 +302,7 @@ theorem readSkeleton (p : Enc) (fuel : Nat) (st : St) (hst : st.types = stdHType
 /-! ### the whole file -/
 
 theorem tagLoop_object' (p : Enc) (fuel F : Nat) (st st' : St) (o : Obj) (x r : Bytes)
-    (hF : x.length + 1 = F + 2) (h : readObject (F + 2) st x = some (o, st', r)) :
+    (hF : maxArrayDepth + 1 = F + 2) (h : readObject (F + 2) st x = some (o, st', r)) :
     tagLoop (fuel + 1) st (p.int 4 ++ x) = tagLoop fuel { st' with objs := st'.objs ++ [o] } r := by
   simp only [tagLoop, readInt p 4 _ (by decide), hF, h]
   rfl
@@ -312,9 +312,7 @@ theorem nat_ne_nil (p : Enc) (n : Nat) : p.nat n ≠ [] := int_ne_nil p n
 theorem tagLoop_object'' (p : Enc) (fuel : Nat) (st st' : St) (o : Obj) (x r : Bytes) (hx : x ≠ [])
     (h : ∀ F, readObject (F + 2) st x = some (o, st', r)) :
     tagLoop (fuel + 1) st (p.int 4 ++ x) = tagLoop fuel { st' with objs := st'.objs ++ [o] } r := by
-  have hF : x.length + 1 = (x.length - 1) + 2 := by
-    have := List.length_pos_iff.mpr hx; omega
-  exact tagLoop_object' p fuel _ st st' o x r hF (h _)
+  exact tagLoop_object' p fuel 31 st st' o x r rfl (h _)
 
 theorem nat_prefix_fuel (p : Enc) (n : Nat) (rest : Bytes) : ∃ F, (p.nat n ++ rest).length + 1 = F + 2 := by
   have := int_length_pos p (n : Int)
